@@ -23,6 +23,12 @@ func zzCopyIS(kind int, backward bool) {
 	ld := o + L
 	flags := verifChoose("flags", 2)
 	p, pb, minMatch := zzMakeParser(kind, ld, o, L)
+	// concrete, pairwise distinct base bytes (param seed); only the defect byte,
+	// the margin bytes, WindowSize, Off and the flags stay symbolic
+	seed := verifParam("seed")
+	for k := 0; k < o; k++ {
+		pb.Data[k] = byte(37*k + 11*seed + 1)
+	}
 	for k := 0; k < L; k++ {
 		if k != d {
 			pb.Data[o+k] = pb.Data[k]
